@@ -34,6 +34,7 @@ def main():
     ap.add_argument('patch')
     ap.add_argument('demo')
     ap.add_argument('--needs', default='')
+    ap.add_argument('--note', default='')
     ap.add_argument('--checks', default='')
     ap.add_argument('--tier', default='quick')
     ap.add_argument('--skip-tests', action='store_true')
@@ -43,7 +44,7 @@ def main():
     sh(f'git -C /repo worktree remove --force {wt}')
     r = sh(f'git -C /repo worktree add --detach {wt} HEAD')
     assert r.returncode == 0, r.stderr
-    meta = {'property': a.prop, 'name': a.name, 'needs': a.needs, 'ran': []}
+    meta = {'property': a.prop, 'name': a.name, 'needs': a.needs, 'note': a.note, 'ran': []}
     try:
         env = dict(os.environ, PYTHONPATH=wt, PYTHONDONTWRITEBYTECODE='1')
         # the script's own directory is sys.path[0]: run a copy placed in the scratch tree
